@@ -108,16 +108,27 @@ def decode(l):
 FIXED_MAIN = [("good", ["assemble", "P"]), ("data", ["assemble", "--big-stack", "P"]), ("good", ["assemble", "--big-stack", "P"]),
               ("data", ["assemble", "P"]), ("data", ["--big-stack", "assemble", "P"]), ("good", ["P"]), ("good", ["--quiet", "P"]),
               ("good", ["preprocess", "P"]), ("data", ["preprocess", "--obfuscate", "P"]), ("hex", ["disassemble", "P"]),
-              ("unwritable", ["assemble", "P"]), ("bad", ["assemble", "P"]), ("missing", ["preprocess", "P"])]
+              ("unwritable", ["assemble", "P"]), ("bad", ["assemble", "P"]), ("missing", ["preprocess", "P"]),
+              ("notdir", ["P"]), ("toolong", ["assemble", "P"]), ("badinclude", ["P"]), ("notdir", ["disassemble", "P"]),
+              ("dir", ["debug", "P"]), ("nonascii", ["preprocess", "P"])]
 
 
 def main_oracle(rng, root, fixed=None):
     """hera.main.main on an argument vector with a real file: exit status, streams, no traceback."""
     files = {"good": "SET(R1, 5)\nprint_reg(R1)\nHALT()\n", "bad": "SET(R1, 5\nFOO(2)\n", "warn": "SET(R1, 017)\n",
              "data": "DLABEL(x)\nINTEGER(5)\nLP_STRING(\"hi\")\nSET(R1, x)\n", "empty": "", "hex": "e1ff\nzz\n1234\n"}
-    kind = fixed[0] if fixed else rng.choice(sorted(files) + ["missing", "dir", "nonascii", "unwritable"])
+    kind = fixed[0] if fixed else rng.choice(sorted(files) + ["missing", "dir", "nonascii", "unwritable", "notdir", "toolong", "badinclude"])
     p = os.path.join(root, kind + ".hera")
-    if kind in files:
+    if kind == "notdir":
+        # a path that goes through a regular file (ENOTDIR, not ENOENT)
+        open(os.path.join(root, "plainfile.hera"), "w").write(files["good"])
+        p = os.path.join(root, "plainfile.hera", "prog.hera")
+    elif kind == "toolong":
+        p = os.path.join(root, "n" * 300 + ".hera")            # ENAMETOOLONG
+    elif kind == "badinclude":
+        open(os.path.join(root, "plainfile.hera"), "w").write(files["good"])
+        open(p, "w").write('#include "plainfile.hera/lib.hera"\nSET(R1, 1)\n')
+    elif kind in files:
         open(p, "w").write(files[kind])
     elif kind == "unwritable":
         # a valid program whose assemble output file cannot be created (its name is taken by a directory)
@@ -169,7 +180,7 @@ def main_oracle(rng, root, fixed=None):
             return "%s is a usage error: exit status %r, stdout %r, stderr %r" % (what, code, out[:80], err[:80]), kind
     elif pr["kind"] == "run":
         debug = pr["mode"] == "debug"
-        broken = kind in ("bad", "missing", "dir", "nonascii", "hex") and pr["mode"] != "disassemble"
+        broken = kind in ("bad", "missing", "dir", "nonascii", "hex", "notdir", "toolong", "badinclude") and pr["mode"] != "disassemble"
         if pr["path"] == "-":
             broken, kind = False, "empty"      # standard input, which is empty here
         elif pr["path"] != p:
@@ -182,7 +193,7 @@ def main_oracle(rng, root, fixed=None):
                 return "%s: an error in the input must give status 3 and a message; got %r, stderr %r" % (what, code, err[:120]), kind
         if kind == "unwritable" and not broken and pr["mode"] == "assemble" and "--stdout" not in pr["flags"] and (code != 3 or not err):
             return "%s: the output file cannot be written: status 3 and a message expected, got %r, stderr %r" % (what, code, err[:120]), kind
-        if pr["mode"] == "disassemble" and kind in ("missing", "dir", "nonascii") and code != 3:
+        if pr["mode"] == "disassemble" and kind in ("missing", "dir", "nonascii", "notdir", "toolong") and code != 3:
             return "%s: unreadable input must give status 3; got %r" % (what, code), kind
         if not broken and pr["mode"] != "disassemble" and kind in files and code != 0 and not debug:
             return "%s: a valid program gives exit status %r, stderr %r" % (what, code, err[:160]), kind
